@@ -276,7 +276,7 @@ func runC06(c *vk.Ctx) {
 	for rep := 0; rep < reps; rep++ {
 		for _, p := range phases {
 			for _, pat := range patterns {
-				scs = append(scs, c06Scenario{Kind: p.kind, Phase: p.phase, Item: p.item, Pattern: pat, Seed: vk.SubSeed(c.Seed, fmt.Sprintf("c06-%d-%s-%s-%s", rep, p.kind, p.phase, pat)), SegVer: 1 + rep%2})
+				scs = append(scs, c06Scenario{Kind: p.kind, Phase: p.phase, Item: p.item, Pattern: pat, Seed: vk.SubSeed(c.Seed, fmt.Sprintf("c06-%d-%s-%s-%s", rep, p.kind, p.phase, pat)), SegVer: 1})
 			}
 		}
 	}
